@@ -475,6 +475,16 @@ class History:
         self.ctx.count('K:poke')
         self.snap('poke')
 
+    def reparent(self, o, target, what):
+        """observer.parent = <None | another node> behind the group's back"""
+        try:
+            o.parent = target
+        except Exception:  # noqa
+            return
+        self.t.emit('parent %d %s' % (self.U.uid(o), '-' if target is None else str(self.U.uid(target))), 'ok', self._m('parent', to=what))
+        self.ctx.count('K:parent-behind-back:' + what)
+        self.snap('parent')
+
     def observe(self):
         """group.observe(): which members' sample counters advanced, and by how many observations"""
         from raysect.core.workflow import SerialEngine
@@ -707,6 +717,15 @@ def membership(ctx, im, t):
             h.setm(ml, [], 'L')
             h.length()
             h.setm(ml, ms, 'L')
+            # members re-parented behind the group's back, then listed again: the assignment must bring them home
+            if n >= 2:
+                from raysect.optical import World
+                h.reparent(ms[0], None, 'None')
+                h.reparent(ms[1], World(), 'world')
+                h.setm(ml, list(ms), 'L')
+                h.reparent(ms[-1], None, 'None')
+                h.setm(ml, list(reversed(ms)), 'T' if 'tuple' in (h.im.desc[ml]['setter'] or {}).get('kinds', ['tuple']) else 'L')
+                h.setm(ml, ms, 'L')
         if im.bcast:
             h.read(im.bcast[0])
         h.observe()
